@@ -185,3 +185,79 @@ prop(
             "thorough": {"try_read_calls": 1000000, "miri:try_read_calls": 5000, "asan:try_read_calls": 100000, "relfast:try_read_calls": 100000}},
     timeout={"quick": 600, "thorough": 7200},
 )
+
+prop(
+    "C05",
+    title="Serialized responses are well-formed and self-delimiting (Content-Length = body)",
+    level="exploration",
+    technique="runtime monitoring: layout model over builder-call sequences, independent re-reader over concatenations, split-sink equivalence",
+    design_ref="DESIGN.md §3 C05",
+    engine="pure",
+    rule="2 versions x 11 status codes x every sequence of <= 3 (quick) / <= 4 (thorough) builder calls over a concrete alphabet of 18 "
+         "calls (6 body shapes incl. empty, CRLFCRLF, a fake response, 2 KiB; both content types; deprecation; encoding; 2 server "
+         "strings; 3 allow lists; 3 allow_method), plus random sequences of length <= 5 incl. a 64 KiB body; random concatenations "
+         "of 2-8 responses re-read by M3; sinks accepting 1/2/7/1000/all bytes per call with EINTR injected. evaluations = responses "
+         "and concatenations checked; distinct_nontrivial = distinct (version, status, call sequence) in which a body was set.",
+    assumptions=["the default Server string and default Content-Type are not pinned by the property: until set explicitly the observed value is accepted (any CR/LF-free server string, either media type)",
+                 "set_content_length is outside the property's alphabet and is not called"],
+    exhaustive={"quick": "all builder-call sequences of length <= 3 over the 18-call alphabet, for 2 versions x 11 codes",
+                "thorough": "all builder-call sequences of length <= 4 over the 18-call alphabet, for 2 versions x 11 codes"},
+    floors={"any": {"responses_with_body_set": 1000, "responses_without_content_length": 100, "concatenations_reread": 500,
+                    "responses_recovered_exactly": 2000, "split_sink_writes": 5000}},
+)
+
+prop(
+    "C15",
+    title="Header rules: case-insensitive names, trimmed values, tolerant vs fatal faults",
+    level="exploration",
+    technique="runtime monitoring: reference header rules (M2) compared with the block parser, the line parser and Encoding::try_from on generated blocks",
+    design_ref="DESIGN.md §3 C15",
+    engine="pure",
+    rule="Every recognised name in all 2^n letter-case patterns (n <= 6 letters) or 256 sampled patterns, with every value of its "
+         "pool and SP/HTAB/U+00A0/U+2003 padding; random blocks of 0-6 lines mixing recognised names, custom names, duplicates, "
+         "lines with 0/1/several colons, invalid UTF-8; Accept-Encoding lists built from identity/*/q=0 pieces. Compared: "
+         "accept/reject, error family, content length, expect, chunked, accept, custom map; block == fold of lines. "
+         "evaluations = blocks/values judged; distinct_nontrivial = distinct non-empty blocks.",
+    assumptions=["`+N` as a Content-Length is a don't-care and not generated", "whitespace means Unicode White_Space as in str::trim",
+                 "a block containing invalid UTF-8 anywhere may be rejected with a block-level kind"],
+    floors={"any": {"lines_ok": 10000, "lines_unsupported_value_ignored": 5000, "lines_fatal": 5000, "blocks_accepted": 5000,
+                    "blocks_rejected": 5000, "case_pattern_lines": 5000, "encoding_values": 1000}},
+)
+
+prop(
+    "C16",
+    title="Token and URI functions are exact, case-sensitive and round-trip",
+    level="exploration",
+    technique="runtime monitoring: bounded-exhaustive enumeration through the public functions against canonical tables and the abs-path definition",
+    design_ref="DESIGN.md §3 C16",
+    engine="pure",
+    rule="All byte strings of length <= 5 over 19 symbols (letters of the tokens, their case flips, SP, NUL, 0xC3) through "
+         "Method::try_from (and length <= 3 through Version/MediaType); every single-byte substitution (256 values), insertion and "
+         "deletion of every canonical token; whitespace variants of media types; round trips; 11 status codes; every URI of "
+         "length <= 7 (quick) / <= 9 (thorough) symbols over {h,t,p,:,/,a,.,%,e-acute} through Request::try_from(..).uri()."
+         "get_abs_path(), plus a systematic scheme x authority x path family. evaluations = inputs judged; distinct_nontrivial = "
+         "distinct inputs with a non-trivial expected answer (token accepted / non-empty absolute path).",
+    assumptions=["media types are matched modulo Unicode whitespace as in str::trim"],
+    exhaustive={"quick": "19-symbol strings up to length 5; URIs up to 7 symbols over 9 symbols; all single-byte edits of the 7 canonical tokens",
+                "thorough": "19-symbol strings up to length 5; URIs up to 9 symbols over 9 symbols (435M); all single-byte edits of the 7 canonical tokens"},
+    floors={"any": {"method_strings_enumerated": 2000000, "token_edits": 20000, "tokens_accepted": 100, "uris_with_nonempty_abs_path": 100000,
+                    "uris_absolute_form_with_path": 100, "status_codes": 11, "round_trips": 7}},
+)
+
+prop(
+    "C17",
+    title="Router dispatches to exactly the handler registered for (method, prefix+path)",
+    level="exploration",
+    technique="runtime monitoring: recording handlers and a reference route map over bounded-exhaustive route tables and requests",
+    design_ref="DESIGN.md §3 C17",
+    engine="pure",
+    rule="Every ordered route table of <= 3 (quick) / <= 4 (thorough) registrations over 3 methods x paths {'', '/', '/a', '/a/b', "
+         "'/ab', '/a:b', 'a', ':'} for prefixes {'', '/p', '/a'}, plus random tables of up to 6 registrations; every request over "
+         "3 methods x all prefix+path combinations in origin-form and two absolute forms. Handlers log their id; exactly the first "
+         "handler registered under (method, prefix+path) must run once, else 404; Server and Content-Type stamps; duplicate "
+         "registration refused. evaluations = dispatches; distinct_nontrivial = distinct (table, request) that hit a handler.",
+    assumptions=["the absolute path of a request URI is computed with the C16 definition"],
+    exhaustive={"quick": "all ordered tables of <= 3 registrations x 3 prefixes x all requests of the alphabet",
+                "thorough": "all ordered tables of <= 4 registrations x 3 prefixes x all requests of the alphabet"},
+    floors={"any": {"dispatches_to_a_handler": 10000, "dispatches_without_handler": 10000, "duplicate_registrations": 100}},
+)
